@@ -63,3 +63,26 @@ Definition mmap_decision (seek_end : option N) (mmap_ok : bool) : option N :=
              (if mmap_ok then Some (off + rs_seek_offset) else None)
            else None
   end.
+
+(* what a scripted reader yields, independently of the hasher (used by Proofs/IoP.v and by the specification machine) *)
+Inductive copy_end := EndEof | EndErr (kind : N) | EndFuel.
+
+(* what the reader yields, independently of the hasher: the pieces handed to update, in
+   order, and how the loop ends *)
+Fixpoint delivered (fuel : nat) (data : list N) (script : list read_item) : list (list N) * copy_end :=
+  match fuel with
+  | O => ([], EndFuel)
+  | S fuel' =>
+      let '(item, script') := match script with [] => (RDeliver rs_COPY_BUF, []) | it :: tl => (it, tl) end in
+      match item with
+      | RInterrupted => delivered fuel' data script'
+      | RError k => ([], EndErr k)
+      | RZero => ([], EndEof)
+      | RDeliver n =>
+          let k := N.min (N.min n rs_COPY_BUF) (nlen data) in
+          if k =? 0 then ([], EndEof)
+          else let '(ps, e) := delivered fuel' (skipn (N.to_nat k) data) script' in
+               (firstn (N.to_nat k) data :: ps, e)
+      end
+  end.
+
